@@ -111,12 +111,17 @@ def defaultBody : B → Nat → R B
     | .nil => if k = 0 then .ok b else fail "Could not find variant 0 in Union"
     | .cons _ _ _ =>
       let j := firstReal fs
-      if k ≠ 0 ∧ j > 127 then fail "out of range integral type conversion attempted"
+      let cj := cur.getD j 0
+      if k ≠ 0 ∧ cj + 1 > 2147483647 then
+        fail s!"Invalid union offsets: the offset type cannot represent the number of elements of variant {j}"
+      else if k ≠ 0 ∧ j > 127 then fail "out of range integral type conversion attempted"
       else do
         let fs' ← pushDefaultKAt fs j k
-        let cj := cur.getD j 0
-        pure (.union p fs' (types ++ List.replicate k (j : Int))
-          (offs ++ (List.range k).map (fun (i : Nat) => cj + (i : Int))) (cur.set j (cj + k)))
+        if k ≠ 0 ∧ cj + k > 2147483647 then
+          fail s!"Invalid union offsets: the offset type cannot represent the number of elements of variant {j}"
+        else
+          pure (.union p fs' (types ++ List.replicate k (j : Int))
+            (offs ++ (List.range k).map (fun (i : Nat) => cj + (i : Int))) (cur.set j (cj + k)))
 
 /-- `x.serialize(Mut(b))` without the `.ctx(self)` wrapper of `b` (copy of the arms of `push`; the `Some` / newtype
 layers are transparent in `push` — they are never the blamed call) -/
